@@ -218,11 +218,12 @@ PROPS['C03'] = {
 PROPS['C04'] = {
     'lean_targets': ['EmmetProps.C04'],
     'lean_imports': ['EmmetProps.C04'],
-    'theorems': [thm('EmmetProps.C04_text_tokens', 'for ANY run of inert tokens (literals, white space, operators, brackets, quotes): stringify_value returns the single string made of their characters and leaves the converter state unchanged', partial=True)],
+    'theorems': [thm('EmmetProps.C04_text_tokens', 'for ANY run of inert tokens (literals, white space, operators, brackets, quotes): stringify_value returns the single string made of their characters and leaves the converter state unchanged', partial=True),
+                 thm('EmmetProps.C04_text_lexing', 'for ANY payload of the text grammar (ordinary characters incl. operators / brackets / quotes / *, \\c escapes, balanced inner braces; no unescaped $) not starting with white space: the tokenizer consumes exactly the payload up to the closing brace as ONE literal whose value is the payload with escapes resolved', partial=True)],
     'domains': ['dom_markup'],
     'rule': 'all well-formed text payloads up to length 2 (quick) / 3 (thorough) over the punctuation alphabet (operators, brackets, quotes, *, escapes) at 2 positions, random longer payloads with nested braces / escapes / unicode at 5 positions, and wrap-text cases: 8 abbreviation templates (with / without implicit repeater, $# in attributes and text) x random line lists drawn from abbreviation look-alikes, blanks, white-space-only lines; expected output computed from the statement; non-trivial = at least two operators; distinct = distinct (abbreviation, config)',
-    'explanation': 'Token-level verbatim theorem; the tokenizer step (characters between braces -> inert tokens with escapes removed), placement before children and the wrap-text rules are decided by correspondence + oracle.',
-    'level_text': 'Lean 4 theorem at token level (text tokens are data; operators inert); lexing of text payloads and wrap-text placement: exhaustive-for-short-payload correspondence + statement-derived oracle (partial).',
+    'explanation': 'Two theorems: lexing (any payload of the text grammar becomes one literal with the escapes resolved and the inner braces kept) and token-level verbatim stringification; placement before children, numbering / tabstops inside text and the wrap-text rules are decided by correspondence + oracle.',
+    'level_text': 'Lean 4 theorems: lexing of any text payload (grammar: ordinary characters, escapes, balanced inner braces) into one literal token, and token-level verbatim stringification (text tokens are data; operators inert); placement and wrap-text rules: exhaustive-for-short-payload correspondence + statement-derived oracle (partial).',
     'level_note': 'Trusted: Lean kernel + standard axioms; tokenizer / convert models tied by correspondence.',
     'assumptions': [CORR],
 }
